@@ -418,3 +418,17 @@ func quadCases(r *vproto.Rng, n int, emit func(l geom.Geom, p geom.Geom)) {
 		emit(shapes.ScaleGeom(l, f), shapes.ScaleGeom(P.ToGeom(2, r.Bool()), f))
 	}
 }
+
+// knownCorpus: the figure of the known finding (polyclip-go's parallel test is not scale-invariant: at 2^-30 the
+// vertex (9,0) of the second member is lost) at the scales 2^-28 (clipped correctly) and 2^-30 (known finding).
+func knownCorpus(emit func(l geom.Geom, p geom.Geom)) {
+	ml := geom.MultiLineString{{{X: 3, Y: 0}, {X: 14, Y: 1}}, {{X: 17, Y: 10}, {X: 1, Y: -1}, {X: 9, Y: 0}, {X: 2, Y: -2}}}
+	pg := geom.MultiPolygon{{
+		{{X: 12.5, Y: 7.5}, {X: 6.5, Y: 8.5}, {X: 4.5, Y: 5.5}, {X: 3.5, Y: 4.5}, {X: 9.5, Y: -0.5}, {X: 11.5, Y: 0.5}, {X: 13.5, Y: 1.5}, {X: 14.5, Y: 1.5}},
+		{{X: 9.5, Y: 4.5}, {X: 10.5, Y: 4.5}, {X: 10.5, Y: 6.5}}}}
+	for _, k := range []int{0, -28, -30} {
+		f := math.Ldexp(1, k)
+		emit(shapes.ScaleGeom(ml, f), shapes.ScaleGeom(pg, f))
+		emit(shapes.ScaleGeom(ml[1], f), shapes.ScaleGeom(pg, f))
+	}
+}
